@@ -1375,6 +1375,12 @@ func (b *beacon) GetManyFromOrderPosition(orderPosition *OrderPosition) ([]treas
 		return nil, errors.New("beacon is not ordered")
 	}
 
+	// From is a zero-based position: a negative one would index before the
+	// first element of the ordered slice.
+	if orderPosition.From < 0 {
+		return nil, errors.New("from must not be negative")
+	}
+
 	// Validate and set initial bounds
 	startIdx := 0
 	endIdx := len(b.treasuresByOrder) - 1
